@@ -99,6 +99,18 @@ pub proof fn lemma_add_step(s: int, aa: int, bb: int, p: int, t: int, x: int, y:
     assert((s + p * t) + c1 * (0x1_0000_0000_0000_0000int * p) == (aa + p * x) + (bb + p * y)) by(nonlinear_arith)
         requires s + c0 * p == aa + bb, t + c1 * 0x1_0000_0000_0000_0000int == x + y + c0;
 }
+pub proof fn lemma_sub_step(s: int, aa: int, bb: int, p: int, t: int, x: int, y: int, bo: bool, bn: bool)
+    requires s - (if bo { p } else { 0 }) == aa - bb,
+        t - (if bn { 0x1_0000_0000_0000_0000int } else { 0 }) == x - y - (if bo { 1int } else { 0 }),
+    ensures (s + p * t) - (if bn { 0x1_0000_0000_0000_0000int * p } else { 0 }) == (aa + p * x) - (bb + p * y)
+{
+    let c0 = if bo { 1int } else { 0 };
+    let c1 = if bn { 1int } else { 0 };
+    assert(s - c0 * p == aa - bb);
+    assert(t - c1 * 0x1_0000_0000_0000_0000int == x - y - c0);
+    assert((s + p * t) - c1 * (0x1_0000_0000_0000_0000int * p) == (aa + p * x) - (bb + p * y)) by(nonlinear_arith)
+        requires s - c0 * p == aa - bb, t - c1 * 0x1_0000_0000_0000_0000int == x - y - c0;
+}
 // ---- big-endian byte strings vs limbs ----
 // value of the top k limbs of a 4-limb number
 pub open spec fn hv(a: Seq<u64>, k: int) -> int {
@@ -384,6 +396,40 @@ const fn u256_sub(a: &U256, b: &U256) -> (res: (U256, bool))
         }
         j -= 1;
     }
+    (r, borrow)
+}
+
+const fn u512_sub(a: &U512, b: &U512) -> (res: (U512, bool))
+    ensures val8(res.0@) - (if res.1 { r256() * r256() } else { 0 }) == val8(a@) - val8(b@)
+{
+    let mut r = [0; 8];
+    let mut borrow = false;
+    let mut j = 7;
+    loop
+        invariant_except_break 0 <= j <= 7, pvr(r@, 7 - j as int) - (if borrow { p64r(7 - j as int) } else { 0 }) == pvr(a@, 7 - j as int) - pvr(b@, 7 - j as int),
+        ensures pvr(r@, 8) - (if borrow { p64r(8) } else { 0 }) == pvr(a@, 8) - pvr(b@, 8),
+        decreases j
+    {
+        let ghost bo = borrow;
+        let ghost r0 = r@;
+        let i = 7 - j;
+        let (diff, bor) = {
+            let (a, b1) = a[i].overflowing_sub(borrow as u64);
+            let (res, b2) = a.overflowing_sub(b[i]);
+            (res, b1 || b2)
+        };
+        r[i] = diff;
+        borrow = bor;
+        proof {
+            lemma_pvr_update(r0, i as int, diff, i as int);
+            lemma_sub_step(pvr(r0, i as int), pvr(a@, i as int), pvr(b@, i as int), p64r(i as int), diff as int, a[i as int] as int, b[i as int] as int, bo, borrow);
+        }
+        if j == 0 {
+            break;
+        }
+        j -= 1;
+    }
+    proof { lemma_pvr8(r@); lemma_pvr8(a@); lemma_pvr8(b@); assert(r256() * r256() == p64r(8)) by(compute); }
     (r, borrow)
 }
 
